@@ -103,6 +103,84 @@ def apply_text(text, c):
     raise ValueError(k)
 
 
+def draw_const_chain(tape, isar=False):
+    """a chain of constants each computed from earlier ones (legal text; the values may grow without bound)"""
+    n = 2 + tape.draw(12)
+    start = tape.pick(["2", "3", "255", "65536", "4294967295", "18446744073709551615", "-1", "0x7fffffff"])
+    pure = tape.pick([None, "*", "*", "<<", "+"])
+    vals = [start]
+    for i in range(1, n):
+        a, b = "XC%d" % (i - 1), "XC%d" % tape.draw(i)
+        op = pure or tape.pick(["*", "*", "+", "-", "<<", "|", "/"])
+        if op == "<<" and not pure:
+            b = str(tape.pick([1, 8, 31, 32, 63, 64]))
+        if pure:
+            b = a
+        vals.append("%s %s %s" % (a, op, b))
+    user = tape.draw(3)
+    last = "XC%d" % (n - 1)
+    if isar:
+        out = "".join('<constant name="XC%d" value="%s"/>' % (i, v.replace("<<", "&lt;&lt;")) for i, v in enumerate(vals))
+        if user == 1:
+            out += '<struct name="XCS"><member name="a" type="u8"><dimension size="%s"/></member></struct>' % last
+        if user == 2:
+            out += '<enum name="XCE"><enum-member name="XCE_A" value="%s"/></enum>' % last
+        return out
+    out = " ".join("const XC%d = %s;" % (i, v) for i, v in enumerate(vals))
+    if user == 1:
+        out += " struct XCS { u8 a[%s]; };" % last
+    if user == 2:
+        out += " enum XCE { XCE_A = %s };" % last
+    return out
+
+
+def draw_isar_graph(tape):
+    """isar XML: a small drawn definition graph over a few names, duplicates and cycles included; optionally split so
+    that its first elements live in an included file -> {"k": "graph", "text": main part, "inc": included part}"""
+    tnames, knames = ["XA", "XB", "XC"], ["XK", "XL"]
+    prim = ['primitiveType="32 bit integer unsigned"', 'primitiveType="8 bit integer unsigned"',
+            'primitiveType="64 bit integer signed"']
+    elems = []
+    n = 2 + tape.draw(5)
+    # focus: mixed / typedefs over two or three names (re-definitions close cycles that no single definition has) /
+    # constants over two names
+    focus = tape.weighted([2, 2, 1])
+    if focus == 1:
+        tnames = ["XA", "XB"] + (["XC"] if tape.chance(1, 4) else [])
+    for _ in range(n):
+        kind = tape.weighted([[6, 2, 3, 1, 1], [12, 0, 1, 0, 0], [1, 8, 1, 1, 0]][focus])
+        if kind == 0:
+            nm = tape.pick(tnames)
+            if tape.chance(1, 3):
+                elems.append('<typedef name="%s" %s/>' % (nm, tape.pick(prim)))
+            else:
+                pool = tnames if focus == 1 else tnames + tnames + ["XS", "XE", "XU"]
+                if not tape.chance(1, 8):      # a definition naming itself is refused at once; keep that rare
+                    pool = [x for x in pool if x != nm]
+                elems.append('<typedef name="%s" type="%s"/>' % (nm, tape.pick(pool)))
+        elif kind == 1:
+            elems.append('<constant name="%s" value="%s"/>' % (
+                tape.pick(knames), tape.pick(knames + tnames + ["3", "XK + 1", "XL * 2", "XE_A", "XA"])))
+        elif kind == 2:
+            mt = tape.pick(tnames + tnames + ["u8", "XS", "XU"])
+            dim = tape.pick(["", "", "", '<dimension size="%s"/>' % tape.pick(knames + tnames + ["2", "XE_A"]),
+                             '<dimension isVariableSize="true" size="%s"/>' % tape.pick(knames + tnames + ["3"])])
+            opt = ' optional="true"' if tape.chance(1, 8) else ""
+            elems.append('<struct name="%s"><member name="x" type="%s"%s>%s</member></struct>' % (
+                tape.pick(["XS", "XS", "XT"]), mt, opt, dim))
+        elif kind == 3:
+            elems.append('<enum name="XE"><enum-member name="XE_A" value="%s"/></enum>' % tape.pick(["1", "XK", "XE_A", "XL"]))
+        else:
+            elems.append('<union name="XU"><member name="a" type="%s" discriminatorValue="%s"/></union>' % (
+                tape.pick(tnames + ["u8", "XS", "XU"]), tape.pick(["1", "XK", "XE_A"])))
+    split = 1 + tape.draw(len(elems)) if tape.chance(1, 3) else 0
+    if tape.chance(1, 2):
+        inc, main = elems[:split], elems[split:]
+    else:
+        inc, main = elems[len(elems) - split:] if split else [], elems[:len(elems) - split]
+    return {"k": "graph", "text": "".join(main), "inc": "".join(inc)}
+
+
 def draw_text_corruption(tape, text, names):
     """one corruption for prophy text; names = declared identifiers of the schema"""
     ntok = max(1, len(tokens(text)))
@@ -116,8 +194,10 @@ def draw_text_corruption(tape, text, names):
             c["text"] = tape.pick(SPECIAL_INSERTS + LITERALS + KEYWORDS + (names or ["x"]))
         return c
     if mode == 2:
-        k = tape.pick(["truncate", "truncate", "empty", "noise", "append"])
+        k = tape.pick(["truncate", "truncate", "empty", "noise", "append", "append", "append", "chain"])
         c = {"k": k}
+        if k == "chain":
+            c = {"k": "append", "text": draw_const_chain(tape)}
         if k == "truncate":
             c["at"] = tape.draw(len(text) + 1)
         if k == "noise":
@@ -164,6 +244,18 @@ def draw_text_corruption(tape, text, names):
 
 
 # ---------------------------------------------------------------- isar XML
+
+GRAPH_INCLUDE = '<xi:include href="inc/graph.xml"/>'
+
+
+def graph_include_text(corruptions):
+    """contents of the file that 'graph' corruptions include (None when none of them is split)"""
+    parts = [c["inc"] for c in corruptions if c.get("k") == "graph" and c.get("inc")]
+    if not parts:
+        return None
+    return ('<?xml version="1.0" encoding="utf-8"?>\n<dom xmlns:xi="http://www.w3.org/2001/XInclude">\n%s\n</dom>\n'
+            % "\n".join(parts))
+
 
 ISAR_SNIPPETS = [
     '<struct name="Rec"><member name="r" type="Rec"/></struct>',
@@ -216,6 +308,11 @@ def apply_xml(text, c):
     k = c["k"]
     if k == "snippet":
         return text.replace("</dom>", c["text"] + "\n</dom>")
+    if k == "graph":
+        text = text.replace("</dom>", c["text"] + "\n</dom>")
+        if c.get("inc") and GRAPH_INCLUDE not in text:
+            text = re.sub(r"(<dom\b[^>]*>)", lambda m: m.group(1) + "\n" + GRAPH_INCLUDE, text, count=1)
+        return text
     if k in ("truncate", "empty", "noise"):
         return apply_text(text, c)
     if k == "attr_del":
@@ -246,7 +343,11 @@ def apply_xml(text, c):
 
 
 def draw_xml_corruption(tape, text, names):
-    mode = tape.weighted([8, 4, 4, 2, 2, 1])
+    mode = tape.weighted([8, 4, 4, 2, 2, 1, 5, 1])
+    if mode == 6:
+        return draw_isar_graph(tape)
+    if mode == 7:
+        return {"k": "snippet", "text": draw_const_chain(tape, isar=True)}
     if mode == 0:
         return {"k": "snippet", "text": tape.pick(ISAR_SNIPPETS)}
     if mode == 1:
